@@ -232,5 +232,5 @@ pub fn case(tape: &[u8], ctx: &Ctx) -> Outcome {
 }
 
 pub fn property() -> Property {
-    Property { id: "C06", rule: RULE, phases: vec![Phase::Prop { name: "deflate API programs and sessions", f: case, quick: 100_000, thorough: 3_000_000, max_tape: 420 }] }
+    Property { id: "C06", rule: RULE, phases: vec![Phase::Prop { name: "deflate API programs and sessions", f: case, quick: 500_000, thorough: 5_000_000, max_tape: 420 }] }
 }
